@@ -75,10 +75,12 @@ typedef char cregex_char_class[(UCHAR_MAX + CHAR_BIT - 1) / CHAR_BIT];
 static inline int cregex_char_class_contains(
   const cregex_char_class klass,
   int                     ch) {
+  ch = (unsigned char) ch; /* `char` may be signed: never index with a negative value */
   return klass[ch / CHAR_BIT] & (1 << ch % CHAR_BIT);
 }
 
 static inline int cregex_char_class_add(cregex_char_class klass, int ch) {
+  ch = (unsigned char) ch; /* `char` may be signed: never index with a negative value */
   klass[ch / CHAR_BIT] |= 1 << (ch % CHAR_BIT);
   return ch;
 }
